@@ -74,3 +74,6 @@ reg("C15", "proof", ["contracts.stress:Stress", "contracts.density:ReducedDM", "
      "gbasis.evals.stress_tensor.evaluate_ehrenfest_hessian"],
     extra_assumptions=["density routines replaced by their contracts (proved under C06, re-discharged here)",
                        "alpha, beta: generic symbolic path covers every real value outside the special-cased constants, which are separate shapes"])
+
+reg("C14", "proof", ["contracts.esp:ESP"], ["gbasis.evals.electrostatic_potential.electrostatic_potential"],
+    extra_assumptions=["point_charge_integral replaced by its contract (C03)", "mask / case analysis by z3 (QF_NRA with square-root atoms)"])
